@@ -69,6 +69,7 @@ pub fn run_line(line: &str) -> String {
     match kind {
         "D" => d_case(rest),
         "W" => w_case(rest),
+        "A" => a_case(rest),
         "E" => e_case(rest),
         "T" => guard(|| t_case(rest)),
         "H" => guard(|| h_case(rest)),
@@ -95,6 +96,67 @@ fn w_case(rest: &str) -> String {
     } else {
         line
     }
+}
+
+// ---------------------------------------------------------------------------
+// A <entry> <prefix-hex|-> <k>: all strings prefix ++ s with |s| = k (k <= 2), in-process; prints the
+// outcome counts and an FNV-1a digest of the D lines (without the cost field), so that two runners can
+// be compared on 65,536 inputs per case
+// ---------------------------------------------------------------------------
+
+fn fnv1a(h: &mut u64, bytes: &[u8]) {
+    for b in bytes {
+        *h ^= *b as u64;
+        *h = h.wrapping_mul(0x0000_0100_0000_01b3);
+    }
+}
+
+fn strip_cost(line: &str) -> String {
+    match line.find(" cost=") {
+        None => line.to_string(),
+        Some(i) => {
+            let rest = &line[i + 6..];
+            let j = rest.find(' ').map(|j| i + 6 + j).unwrap_or(line.len());
+            format!("{}{}", &line[..i], &line[j..])
+        }
+    }
+}
+
+fn a_case(rest: &str) -> String {
+    let (entry, rest) = split_word(rest);
+    let (hex, k) = split_word(rest);
+    let prefix = match parse_plain_hex(hex) {
+        Ok(b) => b,
+        Err(e) => return bad(e),
+    };
+    let k: u32 = match k.parse() {
+        Ok(k) if k <= 2 => k,
+        _ => return bad("A needs k <= 2"),
+    };
+    let total: u32 = 256u32.pow(k);
+    let (mut ok, mut err, mut panic) = (0u32, 0u32, 0u32);
+    let mut h: u64 = 0xcbf2_9ce4_8422_2325;
+    for v in 0..total {
+        let mut input = prefix.clone();
+        for i in (0..k).rev() {
+            input.push(((v >> (8 * i)) & 255) as u8);
+        }
+        let line = match run_d(entry, Bytes::from(input)) {
+            Some(l) => l,
+            None => return bad(format!("unknown D entry {}", entry)),
+        };
+        if line.starts_with("OK ") {
+            ok += 1;
+        } else if line.starts_with("ERR ") {
+            err += 1;
+        } else {
+            panic += 1;
+        }
+        let view = if line.starts_with("PANIC") { "PANIC".to_string() } else { strip_cost(&line) };
+        fnv1a(&mut h, view.as_bytes());
+        fnv1a(&mut h, b"\n");
+    }
+    format!("ok={} err={} panic={} digest={:016x}", ok, err, panic, h)
 }
 
 // ---------------------------------------------------------------------------
